@@ -38,11 +38,12 @@ harness!(name=c17_logit_domain_in, prop=C17, mode=R, kind=normal, tier=quick, un
     let _ = logit(p);
 });
 
-// @axioms c17_softmax_: exp_pos exp_mono exp_ratio exp_range
+// @axioms c17_softmax_: exp_pos exp_mono exp_ratio
 // @bound c17_softmax_: length N (instance), entries in [-1e4, 1e4] (the property's range); exp uninterpreted with positivity, monotonicity, ratio law; overflow obligation: every exp argument <= 709.78
 // @claim c17_softmax_: entries >= 0, sum to 1, preserve order, unchanged by a common shift; no exp argument can overflow (R + obligation)
 // @assume c17_softmax_: |x_i| <= 1e4, |x_i + c| <= 1e4
 fn softmax_h<const N: usize>() {
+    crate::rt::range_checks_on();
     let x: [f64; N] = inp::arr(0);
     let c = inp::f64(100);
     let mut xs = [0.0; N];
